@@ -209,14 +209,6 @@ func (sm *SessionManager) GetSession(r *http.Request) (*SessionData, error) {
 		return nil, fmt.Errorf("failed to get main session: %w", err)
 	}
 
-	// Check for absolute session timeout.
-	if createdAt, ok := sessionData.mainSession.Values["created_at"].(int64); ok {
-		if time.Since(time.Unix(createdAt, 0)) > absoluteSessionTimeout {
-			sessionData.Clear(r, nil)
-			return nil, fmt.Errorf("session expired")
-		}
-	}
-
 	sessionData.accessSession, err = sm.store.Get(r, accessTokenCookie)
 	if sessionData.accessSession == nil {
 		sm.sessionPool.Put(sessionData)
@@ -240,6 +232,15 @@ func (sm *SessionManager) GetSession(r *http.Request) (*SessionData, error) {
 	// Retrieve chunked token sessions.
 	sm.getTokenChunkSessions(r, accessTokenCookie, sessionData.accessTokenChunks)
 	sm.getTokenChunkSessions(r, refreshTokenCookie, sessionData.refreshTokenChunks)
+
+	// Check for absolute session timeout once every part is loaded: an over-age
+	// session is emptied and the request continues with it as not logged in, so
+	// the stale cookies are replaced by the login that follows.
+	if createdAt, ok := sessionData.mainSession.Values["created_at"].(int64); ok {
+		if time.Since(time.Unix(createdAt, 0)) > absoluteSessionTimeout {
+			sessionData.Clear(r, nil)
+		}
+	}
 
 	return sessionData, nil
 }
